@@ -92,6 +92,19 @@ fn contents_at_risk(disk : &Disk, ever_targets : &BTreeSet<String>) -> BTreeSet<
 pub fn monitor_invocation(out : &mut Out, tr : &mut Tracker, inv : &Invocation, op : &Op, coarse : bool, t0 : u64, ops_so_far : &[Op])
 {
     let replay = || replay_json(&tr.label, coarse, t0, ops_so_far);
+    // the properties that assume "distinct writes carry distinct modification times" are monitored whenever
+    // that is actually the case on this disk (always under the fine clock)
+    let mtimes_distinct = |d : &Disk| -> bool
+    {
+        let mut seen : BTreeMap<u64, Vec<u8>> = BTreeMap::new();
+        for (p, n) in d.files.iter()
+        {
+            if in_ruler_dir(p) && !p.starts_with(&cache_prefix()) { continue; }
+            if let Some(prev) = seen.insert(n.mtime, (*n.content).clone()) { if prev != *n.content { return false; } }
+        }
+        true
+    };
+    let coarse = coarse && !(mtimes_distinct(&inv.before) && mtimes_distinct(&inv.after));
     let (is_build, goal) = match op { Op::Build(g) => (true, g.clone()), Op::Clean(g) => (false, g.clone()), _ => return };
 
     // ---- C05 (serial part): no panic, no deadlock, no internal error ----
@@ -443,7 +456,9 @@ pub fn monitor_invocation(out : &mut Out, tr : &mut Tracker, inv : &Invocation, 
 }
 
 /// Generate and run one history. The ops are chosen while running (they depend on what is on disk).
-pub fn run_history(out : &mut Out, rng : &mut Rng, params : &HistParams, label : &str) -> (Vec<Op>, Vec<String>, usize, usize)
+pub type BuildResult = (usize, String, BTreeMap<String, Vec<u8>>);
+
+pub fn run_history(out : &mut Out, rng : &mut Rng, params : &HistParams, label : &str) -> (Vec<Op>, Vec<String>, usize, usize, Vec<BuildResult>)
 {
     let driver = Driver::new(if params.coarse { ClockMode::Coarse } else { ClockMode::Fine }, params.t0);
     let mut tr = Tracker::new(label, params.flavor != Flavor::Undeclared);
@@ -451,6 +466,7 @@ pub fn run_history(out : &mut Out, rng : &mut Rng, params : &HistParams, label :
     let mut obs : Vec<String> = vec![];
     let mut builds = 0;
     let mut ok_builds = 0;
+    let mut results : Vec<BuildResult> = vec![];
 
     let gp = GenParams{max_rules : params.max_rules, flavor : params.flavor};
     let mut scenario = scenario::gen_scenario(rng, &gp);
@@ -549,6 +565,7 @@ pub fn run_history(out : &mut Out, rng : &mut Rng, params : &HistParams, label :
                 ops.push(op.clone());
                 obs.push(world::show_obs(Some(&inv), &driver.sys.disk()));
                 if let Op::Build(_) = op { builds += 1; if inv.verdict.is_ok() { ok_builds += 1; } }
+                results.push((ops.len() - 1, inv.verdict.show(), disk_files(&inv.after)));
                 out.count(&format!("{}:{}", match op { Op::Build(_) => "build", _ => "clean" }, match &inv.verdict { Verdict::Ok => "ok", Verdict::WorkErrors(_) => "errs", Verdict::Fatal(_) => "fatal", Verdict::Panic(_) => "panic" }));
                 for (b, _) in inv.banners.iter() { out.count(&format!("status:{}", b)); }
                 monitor_invocation(out, &mut tr, &inv, &op, params.coarse, params.t0, &ops);
@@ -567,7 +584,62 @@ pub fn run_history(out : &mut Out, rng : &mut Rng, params : &HistParams, label :
             },
         }
     }
-    (ops, obs, builds, ok_builds)
+    (ops, obs, builds, ok_builds, results)
+}
+
+/// Run a given list of operations (corpus case, replay, or the second run of a pair).
+pub fn run_fixed(out : &mut Out, label : &str, coarse : bool, t0 : u64, ops : &[Op], deterministic : bool, policy : &Policy, monitors : bool)
+    -> (Vec<String>, Vec<BuildResult>)
+{
+    let driver = Driver::new(if coarse { ClockMode::Coarse } else { ClockMode::Fine }, t0);
+    let mut tr = Tracker::new(label, deterministic);
+    let mut obs : Vec<String> = vec![];
+    let mut results : Vec<BuildResult> = vec![];
+    for (k, op) in ops.iter().enumerate()
+    {
+        match op
+        {
+            Op::Build(_) | Op::Clean(_) =>
+            {
+                let inv = driver.invoke(op, policy.clone());
+                driver.tick();
+                obs.push(world::show_obs(Some(&inv), &driver.sys.disk()));
+                results.push((k, inv.verdict.show(), disk_files(&inv.after)));
+                if monitors { monitor_invocation(out, &mut tr, &inv, op, coarse, t0, &ops[..k + 1]); }
+            },
+            _ =>
+            {
+                if let Op::Write(p, c) = op
+                {
+                    if p == RULES_PATH
+                    {
+                        tr.scenario = scenario::scenario_from_text(&String::from_utf8_lossy(c)).filter(|s| s.well_formed());
+                        if let Some(sc) = &tr.scenario { tr.ever_targets.extend(sc.all_targets()); }
+                    }
+                }
+                if matches!(op, Op::RmRuler | Op::RmHistDir | Op::RmHist(_)) { tr.ledger.clear(); }
+                driver.user(op);
+                driver.tick();
+                obs.push(world::show_obs(None, &driver.sys.disk()));
+                tr.last_ok_build = None;
+            },
+        }
+    }
+    (obs, results)
+}
+
+/// corpus cases of a suite run first, through the same monitors and as correspondence cases
+pub fn run_corpus(out : &mut Out, suite : &str, deterministic : bool)
+{
+    for (name, line) in world::corpus_cases(suite)
+    {
+        if let Some((coarse, t0, ops)) = world::parse_history_case(&line)
+        {
+            let (obs, _) = run_fixed(out, &format!("corpus:{}", name), coarse, t0, &ops, deterministic, &Policy::Serial, true);
+            out.count("corpus-case");
+            emit_case(out, coarse, t0, &ops, &obs, true);
+        }
+    }
 }
 
 fn emit_case(out : &mut Out, coarse : bool, t0 : u64, ops : &[Op], obs : &[String], nontrivial : bool)
@@ -578,6 +650,7 @@ fn emit_case(out : &mut Out, coarse : bool, t0 : u64, ops : &[Op], obs : &[Strin
 /// C01/C02/C07/C08/C09/C20 histories: deterministic commands, fine clock, full alphabet.
 pub fn histories(ctx : &Ctx, out : &mut Out)
 {
+    run_corpus(out, "hist", true);
     let mut rng = Rng::new(ctx.seed).fork(1);
     let n = if ctx.thorough { 4000 } else { 260 };
     for i in 0..n
@@ -594,7 +667,83 @@ pub fn histories(ctx : &Ctx, out : &mut Out)
             policy : Policy::Serial,
         };
         let mut r = rng.fork(i as u64);
-        let (ops, obs, builds, ok_builds) = run_history(out, &mut r, &params, "hist");
+        let (ops, obs, builds, ok_builds, _) = run_history(out, &mut r, &params, "hist");
         emit_case(out, false, params.t0, &ops, &obs, ok_builds > 0);
+    }
+}
+
+
+/// C18: the modification-time shortcut never changes a result. Every history is run twice — as is, and
+/// with the file-state table erased before every build — under both clock models; verdicts and
+/// workspace contents after every build must agree. All runs are correspondence cases as well.
+pub fn shortcut(ctx : &Ctx, out : &mut Out)
+{
+    // corpus: paired as well
+    for (name, line) in world::corpus_cases("c18")
+    {
+        if let Some((coarse, t0, ops)) = world::parse_history_case(&line)
+        {
+            out.count("corpus-case");
+            paired(out, &format!("corpus:{}", name), coarse, t0, &ops, None);
+        }
+    }
+    let mut rng = Rng::new(ctx.seed).fork(18);
+    let n = if ctx.thorough { 3000 } else { 220 };
+    for i in 0..n
+    {
+        let coarse = i % 2 == 0;
+        let params = HistParams
+        {
+            flavor : Flavor::Plain,
+            max_rules : if ctx.thorough { 8 } else { 5 },
+            max_ops : if ctx.thorough { 22 } else { 14 },
+            coarse : coarse,
+            t0 : 1_000_000,
+            delete_ruler : i % 5 == 0,
+            edit_rules : i % 3 == 0,
+            policy : Policy::Serial,
+        };
+        let mut r = rng.fork(i as u64);
+        // monitors of the other properties assume distinct mtimes: run_history switches them off for coarse
+        let (ops, obs, _, ok_builds, results) = run_history(out, &mut r, &params, "c18");
+        emit_case(out, coarse, params.t0, &ops, &obs, ok_builds > 0);
+        paired(out, "c18", coarse, params.t0, &ops, Some(results));
+    }
+}
+
+fn paired(out : &mut Out, label : &str, coarse : bool, t0 : u64, ops : &[Op], first : Option<Vec<BuildResult>>)
+{
+    let first = match first
+    {
+        Some(r) => r,
+        None => { let (obs, r) = run_fixed(out, label, coarse, t0, ops, true, &Policy::Serial, false); emit_case(out, coarse, t0, ops, &obs, true); r },
+    };
+    // second run: the table erased before every build
+    let mut ops2 : Vec<Op> = vec![];
+    let mut map_index : Vec<usize> = vec![];      // index in ops2 of each op of ops
+    for op in ops.iter()
+    {
+        if let Op::Build(_) = op { ops2.push(Op::RmTable); }
+        map_index.push(ops2.len());
+        ops2.push(op.clone());
+    }
+    let (obs2, second) = run_fixed(out, label, coarse, t0, &ops2, true, &Policy::Serial, false);
+    emit_case(out, coarse, t0, &ops2, &obs2, true);
+    out.count(if coarse { "pairs:coarse" } else { "pairs:fine" });
+    for (k, verdict, files) in first.iter()
+    {
+        if !matches!(ops[*k], Op::Build(_)) { continue; }
+        let k2 = map_index[*k];
+        if let Some((_, verdict2, files2)) = second.iter().find(|(j, _, _)| *j == k2)
+        {
+            if verdict != verdict2 || files != files2
+            {
+                let diff : Vec<String> = files.iter().filter(|(p, c)| files2.get(*p) != Some(c)).map(|(p, c)| format!("{}: {:?} with the table vs {:?} without", p, String::from_utf8_lossy(c), files2.get(p).map(|c| String::from_utf8_lossy(c).to_string()))).collect();
+                out.violation(if coarse { "C18:shortcut-changes-result-coarse-clock" } else { "C18:shortcut-changes-result-fine-clock" },
+                    format!("build #{} gives verdict {} with the saved file-state table and {} without it; {}", k, verdict, verdict2, diff.join("; ")),
+                    replay_json(label, coarse, t0, &ops[..k + 1]));
+                break;
+            }
+        }
     }
 }
